@@ -58,7 +58,7 @@ func (s *vC03Sys) Enabled() []vOp {
 	var ops []vOp
 	// fresh add: the smallest unused id; replace: any live id
 	for id := 1; id <= s.nids; id++ {
-		if !s.ever[uint32(id)] {
+		if !s.ever[uint32(id)+vIDBase] {
 			for ti := range s.texts {
 				ops = append(ops, vOp{K: "Add", A: id, B: ti})
 			}
@@ -66,7 +66,7 @@ func (s *vC03Sys) Enabled() []vOp {
 		}
 	}
 	for id := 1; id <= s.nids; id++ {
-		if d, ok := s.docs[uint32(id)]; ok && !d.deleted {
+		if d, ok := s.docs[uint32(id)+vIDBase]; ok && !d.deleted {
 			for ti := range s.texts {
 				if s.texts[ti] != d.text {
 					ops = append(ops, vOp{K: "Replace", A: id, B: ti})
@@ -83,7 +83,7 @@ func (s *vC03Sys) Enabled() []vOp {
 
 func (s *vC03Sys) Apply(op vOp, hist []vOp, check bool) {
 	h := func() []string { return vHistStrings(append(hist, op)) }
-	id := uint32(op.A)
+	id := uint32(op.A) + vIDBase
 	switch op.K {
 	case "Add", "Replace":
 		t := s.texts[op.B]
@@ -95,6 +95,7 @@ func (s *vC03Sys) Apply(op vOp, hist []vOp, check bool) {
 		}
 		s.docs[id] = &vC03Doc{text: t, tokens: vRefTokens(t)}
 		s.ever[id] = true
+		delete(s.gone, id)
 	case "Remove":
 		err := s.idx.Remove(id)
 		if err != nil {
@@ -231,8 +232,8 @@ func (s *vC03Sys) observe(h []string) {
 	queries := []string{"a", "b", "a b", "z", "", "FI", " ", "c É"}
 	for qi, q := range queries {
 		ref := s.refScores(q)
-		for _, k := range []int{-1, 0, 1, 2, 10} {
-			for ri, r := range [][]uint32{nil, {1}, {2, 9}} {
+		for _, k := range []int{-1, 0, 1, 2, 10, math.MaxInt64} {
+			for ri, r := range [][]uint32{nil, {vIDBase + 1}, {vIDBase + 2, vIDBase + 9}} {
 				s.c.Evaluations++
 				want := ref
 				if len(r) > 0 {
@@ -363,7 +364,7 @@ func vC03Sweep(c *vCtx, maxN int) {
 			}
 			texts[i] = t
 		}
-		s := &vC03Sys{c: c, cfgS: fmt.Sprintf("bm25 sweep n=%d", n), nids: n + 2, texts: texts}
+		s := &vC03Sys{c: c, cfgS: fmt.Sprintf("bm25 sweep n=%d", n) + vIDBaseTag(), nids: n + 2, texts: texts}
 		s.Reset()
 		var hist []vOp
 		ap := func(op vOp, check bool) {
@@ -385,6 +386,121 @@ func vC03Sweep(c *vCtx, maxN int) {
 	}
 	c.Sample(fmt.Sprintf("n structured texts, every third removed, flush, replace, add; every n in 1..%d", maxN))
 	c.Bound = fmt.Sprintf("sweep sizes 1..%d", maxN)
+}
+
+// vC03Endurance: one long-lived index: n identical searches (every answer equals the
+// first), then n add / replace / remove cycles with a flush every 48, judged with the whole
+// oracle every 997 cycles and at the end.
+func vC03Endurance(c *vCtx, n int) {
+	words := []string{"a", "b", "c", "fi", "a a", "b c a", "a b"}
+	s := &vC03Sys{c: c, cfgS: fmt.Sprintf("bm25 endurance n=%d", n), nids: 8, texts: words}
+	s.Reset()
+	var hist []vOp
+	ap := func(op vOp, check bool) {
+		s.Apply(op, hist, check)
+		if len(hist) < 64 {
+			hist = append(hist, op)
+		}
+		c.Transitions++
+	}
+	for i := 0; i < 6; i++ {
+		ap(vOp{K: "Add", A: i + 1, B: i}, false)
+	}
+	ap(vOp{K: "Remove", A: 1}, true)
+	first := ""
+	for i := 0; i < n; i++ {
+		if i%4096 == 0 && c.Expired() {
+			c.Bound = fmt.Sprintf("endurance: deadline after %d searches", i)
+			return
+		}
+		res, err := s.idx.NewSearch().WithQuery("a b").WithK(-1).Execute()
+		sc := make([]float64, len(res))
+		for j, r := range res {
+			sc[j] = float64(r.Score)
+		}
+		sort.Float64s(sc)
+		got := fmt.Sprintf("%v|%v", err, sc)
+		c.Evaluations++
+		if i == 0 {
+			first = got
+		} else if got != first {
+			c.Violation("answer-changed-after-many-searches", "", s.cfgS, vHistStrings(hist), fmt.Sprintf("search number %d returned [%s], the first one [%s]", i+1, got, first))
+			break
+		}
+	}
+	live := []int{2, 3, 4, 5, 6}
+	for i := 0; i < n; i++ {
+		if i%4096 == 0 && c.Expired() {
+			c.Bound = fmt.Sprintf("endurance: deadline after %d cycles", i)
+			return
+		}
+		id := 100 + i
+		ap(vOp{K: "Add", A: id, B: i % len(words)}, false)
+		live = append(live, id)
+		if i%5 == 0 {
+			ap(vOp{K: "Replace", A: live[1], B: (i + 3) % len(words)}, false)
+		}
+		ap(vOp{K: "Remove", A: live[0]}, i%997 == 0)
+		live = live[1:]
+		if i%48 == 47 {
+			ap(vOp{K: "Flush"}, i%997 < 48)
+		}
+	}
+	ap(vOp{K: "Flush"}, true)
+	c.Traces++
+	c.NewState(s.cfgS)
+	c.Nontrivial(s.cfgS)
+	c.Sample(fmt.Sprintf("bm25: %d searches then %d add/replace/remove cycles on one index", n, n))
+}
+
+// vC03Large: large corpora (1500 .. 5000 documents): three quarters removed at once (a
+// single flush purges more than 1024 / 4096 documents), flush, some purged ids re-added
+// with their old text and with another text, one fresh add; judged after every step.
+func vC03Large(c *vCtx, sizes []int) {
+	words := []string{"a", "b", "c", "fi", "É", "a a", "b c a", ""}
+	for _, n := range sizes {
+		if c.Expired() {
+			c.Bound += fmt.Sprintf(" (deadline before large n=%d)", n)
+			return
+		}
+		texts := make([]string, n+2)
+		for i := range texts {
+			t := words[i%len(words)]
+			if i%3 == 1 {
+				t += " " + words[(i/3)%len(words)]
+			}
+			if i%5 == 2 {
+				t += " a b"
+			}
+			texts[i] = t
+		}
+		s := &vC03Sys{c: c, cfgS: fmt.Sprintf("bm25 large n=%d", n), nids: n + 2, texts: texts}
+		s.Reset()
+		var hist []vOp
+		ap := func(op vOp, check bool) {
+			s.Apply(op, hist, check)
+			hist = append(hist, op)
+			c.Transitions++
+		}
+		for i := 0; i < n; i++ {
+			ap(vOp{K: "Add", A: i + 1, B: i}, i == n-1)
+		}
+		for i := 0; i < n; i++ {
+			if i%4 != 0 {
+				ap(vOp{K: "Remove", A: i + 1}, i >= n-2)
+			}
+		}
+		ap(vOp{K: "Flush"}, true)
+		ap(vOp{K: "Add", A: 2, B: 1}, true)     // purged id, its old text
+		ap(vOp{K: "Add", A: 3, B: 6}, true)     // purged id, another text
+		ap(vOp{K: "Add", A: n - 1, B: 0}, true) // late id
+		ap(vOp{K: "Remove", A: 2}, true)
+		ap(vOp{K: "Flush"}, true)
+		ap(vOp{K: "Add", A: n + 1, B: n + 1}, true)
+		c.Traces++
+		c.NewState(s.cfgS)
+	}
+	c.Sample(fmt.Sprintf("bm25 corpora of sizes %v: 3/4 removed, flush, purged ids re-added, flush, fresh add", sizes))
 }
 
 // vC03Runes: the token alphabet itself, exhaustively. For EVERY Unicode scalar value r in
@@ -471,6 +587,25 @@ func init() {
 				maxN = 300
 			}
 			sh = append(sh, vShard{Name: "bm25/sweep", Run: func(c *vCtx) { vC03Sweep(c, maxN) }})
+			sh = append(sh, vShard{Name: "bm25/endurance", Run: func(c *vCtx) { vC03Endurance(c, 70000) }})
+			lg := [][]int{{1500}, {2600}}
+			if tier == "thorough" {
+				lg = [][]int{{1500}, {2600}, {5600}, {9000}}
+			}
+			for _, sz := range lg {
+				sz := sz
+				sh = append(sh, vShard{Name: fmt.Sprintf("bm25/large/%d", sz[0]), Run: func(c *vCtx) { vC03Large(c, sz) }})
+			}
+			for _, base := range vIDBases {
+				base := base
+				sh = append(sh, vShard{Name: fmt.Sprintf("bm25/bigids/%d", base), Run: func(c *vCtx) {
+					vIDBase = base
+					defer func() { vIDBase = 0 }()
+					s := &vC03Sys{c: c, cfgS: fmt.Sprintf("bm25 ids=3 idbase=%d", base), nids: 3, texts: vC03Texts[:5]}
+					vBFS(c, s, 4)
+					vC03Sweep(c, 12)
+				}})
+			}
 			// every Unicode scalar value as a token (8 shards), and letter x combining mark
 			for i := 0; i < 8; i++ {
 				lo, hi := rune(i*0x6000), rune((i+1)*0x6000-1) // 0..0x2FFFF: BMP, SMP, SIP
@@ -484,11 +619,33 @@ func init() {
 			return sh
 		},
 		Replay: func(c *vCtx, v *vViolation) bool {
+			texts := vC03Texts
+			if i := strings.Index(v.Config, " idbase="); i >= 0 {
+				var b uint32
+				fmt.Sscanf(v.Config[i:], " idbase=%d", &b)
+				vIDBase = b
+				defer func() { vIDBase = 0 }()
+				texts = vC03Texts[:5]
+			}
 			if strings.HasPrefix(v.Config, "bm25 runes ") {
 				var lo, hi rune
 				var marks bool
 				fmt.Sscanf(v.Config, "bm25 runes %X..%X marks=%t", &lo, &hi, &marks)
 				vC03Runes(c, lo, hi, marks)
+				_, ok := c.viol[v.Sig()]
+				return ok
+			}
+			if strings.HasPrefix(v.Config, "bm25 endurance n=") {
+				var n int
+				fmt.Sscanf(v.Config, "bm25 endurance n=%d", &n)
+				vC03Endurance(c, n)
+				_, ok := c.viol[v.Sig()]
+				return ok
+			}
+			if strings.HasPrefix(v.Config, "bm25 large n=") {
+				var n int
+				fmt.Sscanf(v.Config, "bm25 large n=%d", &n)
+				vC03Large(c, []int{n})
 				_, ok := c.viol[v.Sig()]
 				return ok
 			}
@@ -501,7 +658,7 @@ func init() {
 			}
 			var nids int
 			fmt.Sscanf(v.Config, "bm25 ids=%d", &nids)
-			vReplayHist(&vC03Sys{c: c, cfgS: v.Config, nids: nids, texts: vC03Texts}, v.History)
+			vReplayHist(&vC03Sys{c: c, cfgS: v.Config, nids: nids, texts: texts}, v.History)
 			_, ok := c.viol[v.Sig()]
 			return ok
 		},
